@@ -157,7 +157,17 @@ fn probe_streams(s: &scnr::Scanner, n_modes: usize, inputs: &[String]) -> Result
 pub fn c13_case(rng: &mut Rng, _i: u64, st: &mut Stats) -> CaseOutcome {
     let mut p = GenParams::default();
     p.max_nodes = 7;
-    let base = gen_multi_mode(rng, &p, 30, 3);
+    let mut base = gen_multi_mode(rng, &p, 30, 3);
+    // larger modes now and then (up to 9 patterns)
+    if rng.chance(1, 3) {
+        let extra = rng.range(3, 5);
+        let mut next_tt = base.modes[0].pats.iter().map(|p| p.tt).max().unwrap_or(0).min(1_000_000) + 1;
+        for _ in 0..extra {
+            base.modes[0].pats.push(RefPattern { re: gen_re(rng, &p), tt: next_tt, la: None });
+            next_tt += 1;
+        }
+        st.count("families_with_large_modes");
+    }
     if !base.all_res().iter().all(|r| print_parse_roundtrip_ok(r)) {
         return CaseOutcome::Skipped;
     }
